@@ -74,7 +74,7 @@ RULES_OK = '''<?xml version="1.0" encoding="UTF-8"?>
             <choice name="lo">0</choice>
             <choice name="hi">%(choice_hi)s</choice>
         </set>
-    </types>
+%(extra_types)s    </types>
     <sbe:message name="m" id="1" blockLength="%(m_bl)s">
         <field name="a" id="1" type="uint32"/>
         <field name="b" id="2" type="uint16" offset="%(b_off)s"/>
@@ -84,7 +84,7 @@ RULES_OK = '''<?xml version="1.0" encoding="UTF-8"?>
         <field name="kk" id="9" type="kc"/>
         <field name="l" id="10" type="lim" offset="%(l_off)s"/>
         <field name="e" id="11" type="es"/>
-        <group name="g" id="5" blockLength="%(g_bl)s">
+%(extra_fields)s        <group name="g" id="5" blockLength="%(g_bl)s">
             <field name="x" id="6" type="uint16"/>
             <field name="y" id="7" type="uint32" offset="%(y_off)s"/>
         </group>
@@ -92,7 +92,7 @@ RULES_OK = '''<?xml version="1.0" encoding="UTF-8"?>
 </sbe:messageSchema>
 '''
 BASE = {"pkg": "vs_rules", "cmp_q_off": "2", "choice_hi": "7", "m_bl": "16", "b_off": "4", "g_bl": "6", "y_off": "2",
-        "vr_type": "uint16", "max8": "254", "const8": "-128", "enum_top": "255", "l_off": "14"}
+        "vr_type": "uint16", "max8": "254", "const8": "-128", "enum_top": "255", "l_off": "14", "extra_types": "", "extra_fields": ""}
 TWINS = {  # one rule-breaking edit each
     "field_offset_below_min": {"b_off": "3"},
     "message_blocklength_below_content": {"m_bl": "15"},
@@ -104,6 +104,29 @@ TWINS = {  # one rule-breaking edit each
     "group_blocklength_below_content": {"g_bl": "5"},
     "entry_field_offset_below_min": {"y_off": "1"},
     "choice_index_beyond_width": {"choice_hi": "8"},
+}
+T_ = "        "
+TWINS_OTHER = {  # rules that are not about layout: the twin must be rejected (observed exit status + located diagnostic); nothing for a solver to decide unless it is accepted
+    "multi_byte_array": {"extra_types": T_ + '<type name="arr16" primitiveType="uint16" length="2"/>\n', "m_bl": "20", "extra_fields": T_ + '<field name="xa" id="20" type="arr16"/>\n'},
+    "unknown_type_reference": {"m_bl": "20", "extra_fields": T_ + '<field name="xu" id="20" type="nosuchtype"/>\n'},
+    "data_type_not_a_composite": {"extra_fields": "", "extra_types": "", "_after_group": T_ + '<data name="xd" id="21" type="lim"/>\n'},
+    "dimension_type_not_a_composite": {"_after_group": T_ + '<group name="xg" id="22" dimensionType="es">\n' + T_ + '    <field name="q" id="23" type="uint8"/>\n' + T_ + '</group>\n'},
+    "cyclic_composite_reference": {"extra_types": T_ + '<composite name="cya">\n' + T_ + '    <type name="v" primitiveType="uint8"/>\n' + T_ + '    <ref name="b" type="cyb"/>\n' + T_ + '</composite>\n'
+                                   + T_ + '<composite name="cyb">\n' + T_ + '    <ref name="a" type="cya"/>\n' + T_ + '</composite>\n'},
+    "keyword_field_name": {"m_bl": "20", "extra_fields": T_ + '<field name="class" id="20" type="uint8"/>\n'},
+    "invalid_field_name": {"m_bl": "20", "extra_fields": T_ + '<field name="1abc" id="20" type="uint8"/>\n'},
+    "invalid_type_name": {"extra_types": T_ + '<type name="a-b" primitiveType="uint8"/>\n'},
+    "duplicate_field_name": {"m_bl": "20", "extra_fields": T_ + '<field name="a" id="20" type="uint8"/>\n'},
+    "duplicate_enum_value_name": {"extra_types": T_ + '<enum name="dupe" encodingType="uint8">\n' + T_ + '    <validValue name="x">1</validValue>\n' + T_ + '    <validValue name="x">2</validValue>\n' + T_ + '</enum>\n'},
+    "duplicate_choice_name": {"extra_types": T_ + '<set name="dups" encodingType="uint8">\n' + T_ + '    <choice name="x">1</choice>\n' + T_ + '    <choice name="x">2</choice>\n' + T_ + '</set>\n'},
+    "minvalue_not_representable": {"extra_types": T_ + '<type name="badmin" primitiveType="int8" minValue="-129"/>\n'},
+    "nullvalue_not_representable": {"extra_types": T_ + '<type name="badnull" primitiveType="uint16" presence="optional" nullValue="65536"/>\n'},
+    "non_numeric_value": {"extra_types": T_ + '<type name="badnum" primitiveType="uint16" maxValue="12x"/>\n'},
+    "char_enum_value_two_chars": {"extra_types": T_ + '<enum name="badc" encodingType="char">\n' + T_ + '    <validValue name="x">AB</validValue>\n' + T_ + '</enum>\n'},
+    "enum_encoding_not_integral": {"extra_types": T_ + '<enum name="badf" encodingType="float">\n' + T_ + '    <validValue name="x">1</validValue>\n' + T_ + '</enum>\n'},
+    "set_encoding_signed": {"extra_types": T_ + '<set name="bads" encodingType="int8">\n' + T_ + '    <choice name="x">1</choice>\n' + T_ + '</set>\n'},
+    "header_without_version": {"_drop": '            <type name="version" primitiveType="uint16"/>\n'},
+    "dimension_without_numingroup": {"_drop": '            <type name="numInGroup" primitiveType="uint16"/>\n'},
 }
 
 
@@ -265,13 +288,27 @@ uint32_t isalnum(uint32_t c){ return isdigit(c) || isalpha(c); }
 """ % {"ml": ML}
     hs.append(P.Harness("k7_value_ref", hgen.harness([u4], body, pre=ENV4), [u4], unwind=ML + 2, cap=ctx.q(200, 900), backends=["minisat", "kissat"], extra_flags=["--no-standard-checks"],
                         desc="utils::parse_value_ref splits 'enum.enumerator' at the first dot, for all byte strings of length <= %d" % ML, bounds={"string_length": "0..%d" % ML}, meta={"no_native": True}))
+    # ---- every verification schema of /verif/schemas breaks none of the rules (the independent model parses and lays them all out): the rebuilt sbeppc must accept each of them
+    import glob
+    for xml in sorted(glob.glob(os.path.join(P.VERIF, "schemas", "*.xml"))):
+        rc, out, inc = ctx.slot.generate(xml)
+        first = (out.strip().split("\n") or [""])[0][:200]
+        ctx.observations.append({"schema": os.path.basename(xml), "sbeppc_exit": rc, "decided_by": "running the rebuilt sbeppc (observation, not a solver verdict)"})
+        if rc != 0:
+            d = os.path.join(P.VERIF, "replays", "C08", "valid_schema_rejected_" + os.path.basename(xml).replace(".xml", "")); os.makedirs(d, exist_ok=True)
+            shutil.copy(xml, d); open(os.path.join(d, "replay.sh"), "w").write("#!/bin/sh\necho '%s'; exit 1\n" % out.replace("'", " ")[:500])
+            ctx.pre_violations.append(("sbeppc rejects (rc=%d) a verification schema that breaks none of its rules: %s: %s" % (rc, os.path.basename(xml), first), d))
     # ---- K3
     work = ctx.slot.path("rules", "x")[:-2]
-    variants = [("ok", dict(BASE))] + [(k, dict(BASE, **v)) for k, v in TWINS.items()]
+    variants = [("ok", dict(BASE))] + [(k, dict(BASE, **v)) for k, v in TWINS.items()] + [(k, dict(BASE, **v)) for k, v in TWINS_OTHER.items()]
     for name, params in variants:
         params["pkg"] = "vs_rules_" + name
         xml = os.path.join(work, "vs_rules_%s.xml" % name)
-        open(xml, "w").write(RULES_OK % params)
+        text = RULES_OK % {k_: v_ for k_, v_ in params.items() if not k_.startswith("_")}
+        if params.get("_after_group"): text = text.replace("        </group>\n    </sbe:message>", "        </group>\n" + params["_after_group"] + "    </sbe:message>")
+        if params.get("_drop"):
+            assert params["_drop"] in text; text = text.replace(params["_drop"], "", 1)
+        open(xml, "w").write(text)
         rc, out, inc = ctx.slot.generate(xml)
         first = (out.strip().split("\n") or [""])[0][:200]
         ctx.observations.append({"schema": "vs_rules_" + name, "sbeppc_exit": rc, "first_diagnostic_line": first, "decided_by": "running the rebuilt sbeppc (observation, not a solver verdict)"})
@@ -283,7 +320,17 @@ uint32_t isalnum(uint32_t c){ return isdigit(c) || isalpha(c); }
         if rc != 0:
             if ":" not in first:
                 ctx.notes.append("twin %s rejected without a located diagnostic: %r" % (name, first))
+            if rc < 0 or rc > 1:
+                d = os.path.join(P.VERIF, "replays", "C08", "twin_not_rejected_cleanly_" + name); os.makedirs(d, exist_ok=True)
+                shutil.copy(xml, d); open(os.path.join(d, "replay.sh"), "w").write("#!/bin/sh\necho 'sbeppc exit status %d on vs_rules_%s.xml: %s'; exit 1\n" % (rc, name, out.replace("'", " ")[:300]))
+                ctx.pre_violations.append(("rule-breaking schema %s is not rejected with a diagnostic but ends with status %d (crash/abort)" % (name, rc), d))
             continue   # rejected, as the rules demand (recorded above)
+        if name != "ok":
+            # a rule-breaking twin is accepted: that alone contradicts 'rejects every schema that breaks a rule' (observed exit status; for the layout rules the solver additionally exhibits the overlap below)
+            d = os.path.join(P.VERIF, "replays", "C08", "rule_breaking_schema_accepted_" + name); os.makedirs(d, exist_ok=True)
+            shutil.copy(xml, d); open(os.path.join(d, "replay.sh"), "w").write("#!/bin/sh\necho 'sbeppc accepts vs_rules_%s.xml (exit 0)'; exit 1\n" % name)
+            ctx.pre_violations.append(("sbeppc accepts the one-edit rule-breaking schema %s (exit 0) -- observed exit status, not a solver verdict" % name, d))
+            if name in TWINS_OTHER: continue
         # accepted (the valid schema, or a twin that a changed sbeppc no longer rejects): the generated layout must be sound
         sch = M.Schema(xml)
         msg = sch.messages[0]
